@@ -55,10 +55,10 @@ pub fn p2pkh_script(keybytes: &[u8]) -> Vec<u8> {
 
 pub fn key_ser(label: &str, form: KeyForm) -> Vec<u8> {
     let k = key(label);
-    match form {
-        KeyForm::Compressed => k.compressed(),
+    match crate::keys::form_of(label, form) {
         KeyForm::Uncompressed => k.uncompressed(),
         KeyForm::XOnly => k.x32(),
+        _ => k.compressed(),
     }
 }
 
@@ -678,6 +678,8 @@ pub fn descriptor_models_ctx(u: &Universe, n_seg: usize, n_shwsh: usize, n_leg: 
     for (kk, n) in [(1, 1), (1, 2), (2, 2), (1, 3), (2, 3), (3, 3)] {
         let ks: Vec<String> = (1..=n).map(|i| format!("K{}", i)).collect();
         out.push(D::Bare(T::Multi(kk, ks.clone())));
+        out.push(D::Bare(T::SortedMulti(kk, ks.clone())));
+        out.push(D::Sh(T::Multi(kk, ks.clone())));
         out.push(D::Sh(T::SortedMulti(kk, ks.clone())));
         out.push(D::Wsh(T::SortedMulti(kk, ks.clone())));
         out.push(D::ShWsh(T::SortedMulti(kk, ks.clone())));
@@ -764,6 +766,7 @@ pub fn descriptor_models_ctx(u: &Universe, n_seg: usize, n_shwsh: usize, n_leg: 
         let ks = |a: usize, n: usize| -> Vec<String> { (a..a + n).map(|i| format!("K{}", i)).collect() };
         let sln_older = T::Swap(Box::new(T::OrI(Box::new(T::False), Box::new(T::ZeroNotEqual(Box::new(T::Older(5)))))));
         let a_sha = T::Alt(Box::new(T::Sha256("H1".into())));
+        let altv_sha = T::Alt(Box::new(T::OrI(Box::new(T::False), Box::new(T::AndV(Box::new(T::Verify(Box::new(T::Sha256("H1".into())))), Box::new(T::True))))));
         // a:u:t:v:sha256(H): a hash leg with a unique dissatisfaction (keeps the threshold non-malleable)
         let autv_sha = T::Alt(Box::new(T::OrI(Box::new(T::AndV(Box::new(T::Verify(Box::new(T::Sha256("H1".into())))), Box::new(T::True))), Box::new(T::False))));
         let mut wide: Vec<(T, bool)> = vec![]; // (term, ecdsa-only)
@@ -783,6 +786,10 @@ pub fn descriptor_models_ctx(u: &Universe, n_seg: usize, n_shwsh: usize, n_leg: 
             wide.push((T::Thresh(k, vec![pk(1), spk(2), a_sha.clone(), a_ln_older.clone()]), false));
             wide.push((T::Thresh(k, vec![pk(1), a_ln_older.clone(), a_sha.clone(), spk(2)]), false));
             wide.push((T::Thresh(k, vec![pk(1), spk(2), autv_sha.clone(), a_ln_older.clone()]), false));
+            // three signed legs and one hash leg with a unique dissatisfaction (u:t:v: and l:t:v: forms)
+            wide.push((T::Thresh(k, vec![pk(1), spk(2), spk(3), autv_sha.clone()]), false));
+            wide.push((T::Thresh(k, vec![pk(1), spk(2), spk(3), altv_sha.clone()]), false));
+            wide.push((T::Thresh(k, vec![pk(1), altv_sha.clone(), spk(2), spk(3)]), false));
         }
         for k in [1usize, 2, 4] {
             wide.push((T::Thresh(k, vec![pk(1), spk(2), spk(3), spk(4)]), false));
@@ -821,6 +828,29 @@ pub fn descriptor_models_ctx(u: &Universe, n_seg: usize, n_shwsh: usize, n_leg: 
             for k in [1usize, 2, n - 1, n] {
                 out.push(D::Wsh(T::Thresh(k, subs.clone())));
             }
+        }
+    }
+    // deep tap trees: left- and right-leaning chains of depth 7 and 8 (control blocks of 257 and 289
+    // bytes: their length prefix needs 3 bytes)
+    for depth in [7usize, 8] {
+        for left in [true, false] {
+            let mut ls: Vec<(u8, T)> = vec![];
+            // equal leaves: the deepest one is then the costliest path (single-key worlds spend each leaf alone)
+            let heavy = T::Check(Box::new(T::PkK("K1".into())));
+            if left {
+                ls.push((depth as u8, heavy.clone()));
+                ls.push((depth as u8, T::Check(Box::new(T::PkK("K3".into())))));
+                for d in (1..depth).rev() {
+                    ls.push((d as u8, T::Check(Box::new(T::PkK(format!("K{}", 10 + d))))));
+                }
+            } else {
+                for d in 1..depth {
+                    ls.push((d as u8, T::Check(Box::new(T::PkK(format!("K{}", 10 + d))))));
+                }
+                ls.push((depth as u8, T::Check(Box::new(T::PkK("K3".into())))));
+                ls.push((depth as u8, heavy.clone()));
+            }
+            out.push(D::Tr("KI".into(), ls));
         }
     }
     // dissatisfactions the static analysis does not count (and_v is never typed `d`, yet the satisfier
